@@ -445,7 +445,9 @@ def model_decl(index, models, ci, summ=None):
             ann, mod_ = d[0].value, sy.module
         for x in ast.walk(ann):
             if isinstance(x, ast.Subscript) and ast.unparse(x.value).split(".")[-1] == "Annotated" and isinstance(x.slice, ast.Tuple):
-                meta += [ast.unparse(y) for y in x.slice.elts[1:]]
+                meta += [ast.unparse(y) for y in x.slice.elts[1:]
+                         if not (isinstance(y, ast.Call) and ast.unparse(y.func).split(".")[-1] == "Field"
+                                 and all(k.arg in CONSTRAINT_KEYS for k in y.keywords) and not y.args)]  # (constraints: compared below)
         fields[f.name] = {"shape": _shape_json(f.shape), "meta": meta,
                           "constraints": {k: _const_of(v, index, f.owner.module) for k, v in f.field_kwargs.items() if k in CONSTRAINT_KEYS},
                           "default": None if f.default is None else _const_of(f.default, index, f.owner.module),
@@ -510,6 +512,20 @@ def class_decl(ci):
     """base classes by their last name component (an Enum with a str mixin is another type than a bare Enum)"""
     bases = sorted({ast.unparse(b.value if isinstance(b, ast.Subscript) else b).split(".")[-1] for b in ci.base_exprs} - IGNORABLE_BASES)
     return {"bases": bases}
+
+
+def plain_new_bases(ci, ref_classes):
+    """names of the bases of ci that are in-package classes introduced after the reference tree and plain: no external ancestry, no
+    special method other than the constructor (which the rules read through super().__init__), no annotated class attributes --
+    such a base shares code without changing what kind of object the instances are"""
+    known = {q.split(":")[-1] for q in ref_classes}
+    out = set()
+    for b in ci.bases:
+        if b.name not in known and all(not (set(x.split(".")[-1] for x in c.ext_bases) - IGNORABLE_BASES)
+                                       and not ({n for n in c.methods if n in PROTOCOL_METHODS} - {"__init__"})
+                                       and not any(isinstance(st, ast.AnnAssign) for st in c.node.body) for c in b.mro()):
+            out.add(b.name)
+    return out
 
 
 def package_exports(index):
@@ -768,6 +784,7 @@ def check_declarations(ctx: Ctx, files: List[str]):
                 continue
             n_c += 1
             cur = class_decl(c)
+            cur["bases"] = sorted(set(cur["bases"]) - plain_new_bases(c, ref.get("classes", {})))
             if cur["bases"] != r["bases"]:
                 gone, added = sorted(set(r["bases"]) - set(cur["bases"])), sorted(set(cur["bases"]) - set(r["bases"]))
                 ctx.bad("G.5", m.relpath, c.name, f"class {c.name}({', '.join(cur['bases'])})",
